@@ -537,7 +537,8 @@ class RemoveThenExpandFactory(StrategyFactory[WC]):
 
     def __call__(self, c):
         yield RemoveFront()
-        if not c.just_prefix:
+        # Expand only where RemoveFront does not apply, so that prefixes stay bounded (a finite universe)
+        if not c.just_prefix and RemoveFront().decomposition_function(c) is None:
             yield Expand()
 
     def __str__(self):
